@@ -460,9 +460,9 @@ func runJWT(r *vcommon.Run) {
 					sg.name, tamperNames[tk], expNames[ts.exp], issNames[ts.iss], auds[ts.aud].name, pc.name, ts.key, cfg.iss, cfg.aud, cfg.key)
 				switch {
 				case want == no && admitted:
-					r.Violation("jwt-admitted:"+strings.Join(reject, "+")+":"+sg.name+":"+pc.name, desc+": admitted although "+strings.Join(reject, ", "), replay)
+					violation(r, "jwt-admitted:"+strings.Join(reject, "+")+":"+sg.name+":"+pc.name, desc+": admitted although "+strings.Join(reject, ", "), replay)
 				case want == yes && !admitted:
-					r.Violation("jwt-valid-rejected:"+sg.name+":"+pc.name+":exp="+expNames[ts.exp]+":iss="+issRel+":aud="+audRel+"/"+auds[ts.aud].name,
+					violation(r, "jwt-valid-rejected:"+sg.name+":"+pc.name+":exp="+expNames[ts.exp]+":iss="+issRel+":aud="+audRel+"/"+auds[ts.aud].name,
 						desc+": valid granting token rejected: "+aerr.Error(), replay)
 				}
 				switch want {
@@ -609,9 +609,9 @@ func runJWT(r *vcommon.Run) {
 		cls := fmt.Sprintf("field=%s,pass=%s,query=%s,%s,inquery=%s", tokName(c.token), tokName(c.pass), c.q.name, protoClass(c.ap), inqName)
 		switch {
 		case admitted && !canAdmit:
-			r.Violation("jwt-source-admitted:"+cls, desc+": admitted, but the token selected by the precedence rule is "+strings.Join(tn, "/"), replay)
+			violation(r, "jwt-source-admitted:"+cls, desc+": admitted, but the token selected by the precedence rule is "+strings.Join(tn, "/"), replay)
 		case !admitted && !canReject:
-			r.Violation("jwt-source-rejected:"+cls, desc+": rejected ("+aerr.Error()+"), but the precedence rule selects the valid token (or the request is excluded)", replay)
+			violation(r, "jwt-source-rejected:"+cls, desc+": rejected ("+aerr.Error()+"), but the precedence rule selects the valid token (or the request is excluded)", replay)
 		}
 		r.Distinct(fmt.Sprintf("jwtB %s excluded=%v -> %v", cls, excluded, admitted))
 		src := "none"
@@ -657,7 +657,7 @@ func runJWT(r *vcommon.Run) {
 						// k2 under the kid k1: there W (signed with k2 as k1) is the valid token and V is not
 						want := excluded || (mode == "otherkeys" && tk.name == "W")
 						if admitted != want {
-							r.Violation(fmt.Sprintf("jwt-jwks-%s:admitted=%v", mode, admitted), fmt.Sprintf(
+							violation(r, fmt.Sprintf("jwt-jwks-%s:admitted=%v", mode, admitted), fmt.Sprintf(
 								"JWKS server in mode %s, exclude=%v, %s with token %s: admitted=%v", mode, excl, act, tk.name, admitted),
 								map[string]any{"method": "jwt", "part": "C", "jwks": mode, "exclude": excl, "action": string(act), "token": tk.name})
 						}
@@ -691,7 +691,7 @@ func runJWT(r *vcommon.Run) {
 				nC++
 				admitted := aerr == nil
 				if (want == yes && !admitted) || (want == no && admitted) {
-					r.Violation("jwt-rotation-"+variant+":"+name, fmt.Sprintf("key rotation (%s), step %s: admitted=%v", variant, name, admitted),
+					violation(r, "jwt-rotation-"+variant+":"+name, fmt.Sprintf("key rotation (%s), step %s: admitted=%v", variant, name, admitted),
 						map[string]any{"method": "jwt", "part": "C", "history": "serve{k1}; T1; rotate; T1,Tnew; RefreshJWTJWKS; T1,Tnew", "variant": variant, "step": name})
 				}
 				r.Distinct(fmt.Sprintf("jwtC rotation %s %s -> %v", variant, name, admitted))
